@@ -74,6 +74,7 @@ func (w *World) WrittenFields() map[string]bool {
 	out := map[string]bool{}
 	w.funcWrites = map[string]*funcWrites{}
 	w.escapedKeys = map[string]types.Type{}
+	w.directWritten = map[string]bool{}
 	var cur *funcWrites
 	markAll := func(t types.Type) {
 		if p, ok := t.Underlying().(*types.Pointer); ok {
@@ -115,6 +116,7 @@ func (w *World) WrittenFields() map[string]bool {
 				f := st.Field(ix)
 				if named, ok := types.Unalias(t).(*types.Named); ok && (i == len(idx)-1 || true) {
 					out[heapKeyOf(named, f.Name())] = true
+					w.directWritten[heapKeyOf(named, f.Name())] = true
 					if cur != nil {
 						cur.keys[heapKeyOf(named, f.Name())] = f.Type()
 					}
